@@ -243,6 +243,32 @@ def run(chk, prog):
                     chk.ok(R2, key, 'table (%s): %s' % (kind, reason), loc)
     chk.floor(R2, 'host-call surface functions', nsurf, 15)
 
+    # ---- 2b. a host index refers to the list the host was shown
+    R4 = 'C09.index-refers-to-offered-choices'
+    chk.rule(R4, 'In choose_choice_index the host\'s index is applied to (and range-checked against) the list returned by '
+             'the public accessor Story::get_current_choices - the choices the host was offered - not to the raw '
+             'per-flow list, which also holds hidden fallback choices.')
+    cci = prog.fn('Story::choose_choice_index')
+    if chk.anchor(R4, 'Story::choose_choice_index', cci):
+        uses = []
+        for gfn in prog.with_closures(cci):
+            for bb, t in gfn.calls():
+                name = callee_short(t).rsplit('::', 1)[-1]
+                if name in ('get', 'index', 'get_mut', 'nth', 'remove', 'swap_remove') and len(t['args']) >= 2:
+                    ip = tr.prov(gfn, t['args'][1])
+                    if 'arg:2' in ip or any(a.startswith('upvar:choice_index') for a in ip):
+                        uses.append((gfn, bb, tr.prov(gfn, t['args'][0])))
+        if chk.anchor(R4, 'use of the index argument in choose_choice_index', uses):
+            for i, (gfn, bb, rp) in enumerate(uses):
+                visible = any('Story::get_current_choices' in a for a in rp)
+                raw = any('StoryState::get_current_choices' in a or a == 'field:Flow::current_choices' for a in rp)
+                chk.decide(R4, chk.key(R4, 'use#%d' % i), visible and not raw,
+                           'the index selects from the list returned by Story::get_current_choices',
+                           'choose_choice_index applies the host\'s index to the raw per-flow choice list (provenance '
+                           '%s) instead of the offered list: an index just past the offered choices silently selects a '
+                           'hidden fallback choice instead of being refused'
+                           % sorted(a for a in rp if a.startswith(('call:', 'via:', 'field:')))[:4], gfn.loc(bb))
+
     # ---- 3. pairing
     check_count_pairing(chk, prog, tr, R3)
 
